@@ -27,12 +27,18 @@ from vlib.ctx import Infra, TemplateMismatch
 THEOREMS = [
     # membership predicates of the classes
     "Scenic.Region.trueContains_eq_mem",
+    "Scenic.Region.trueContains_eq_mem_all",
     "Scenic.Region.memCode_eq_mem",
+    "Scenic.Region.memCode_eq_mem_all",
+    "Scenic.Region.trueContains_composite_witness",
+    "Scenic.Region.ptsSampler_support",
     "Scenic.Region.containsPoint_eq_mem",
     "Scenic.Region.containsPoint_footprint_witness",
     # set semantics of handlers and routes
     "Scenic.Region.runH_sound",
     "Scenic.Region.exec_sound",
+    "Scenic.Region.exec_sound_c",
+    "Scenic.Region.polySub_curve_sound",
     "Scenic.Region.exec_keeps_height",
     "Scenic.Region.polyAnd_drops_height_witness",
     "Scenic.Region.elevated_polygon_polyline_witness",
@@ -58,6 +64,11 @@ THEOREMS = [
     "Scenic.Region.selectHit_first_witness",
     "Scenic.Region.containsRegion_consistent",
     "Scenic.Region.containsRegion_height_witness",
+    # projection along a direction
+    "Scenic.Region.slab_iff",
+    "Scenic.Region.rayHit_first",
+    "Scenic.Region.rayHit_none",
+    "Scenic.Region.projectVector_nearest",
     # the property on the regenerated data
     "Scenic.C16.mem_intersect",
     "Scenic.C16.mem_union",
@@ -65,11 +76,16 @@ THEOREMS = [
     "Scenic.C16.result_keeps_height",
     "Scenic.C16.intersects_iff_common_point",
     "Scenic.C16.dispatch_terminates",
+    "Scenic.C16.lazy_union_loop_witness",
+    "Scenic.C16.project_nearest",
+    "Scenic.C16.sampler_membership",
 ]
 SIDE = [
     "Scenic.C16.gen_flags_ok",
     "Scenic.C16.gen_routes_terminate",
     "Scenic.C16.gen_routes_sound",
+    "Scenic.C16.gen_routes_sound_strict",
+    "Scenic.C16.gen_workspace_delegates",
     "Scenic.C16.gen_routes_intersects_sound",
     "Scenic.C16.gen_planar_routes",
 ]
@@ -420,7 +436,7 @@ def gen_region(rng, kind, z, zs):
         n = rng.randint(3, 7)
         ps = set()
         while len(ps) < n:
-            ps.add((d8(rng, 0, 6), d8(rng, 0, 6), rng.choice(zs)))
+            ps.add((d8(rng, 0, 6), d8(rng, 0, 6), rng.choice(list(zs) + [Fr(0), zs[0] + Fr(1, 2)])))
         return ("pts", tuple(sorted(ps)))
     if kind in ("vol", "surf"):
         c = (d8(rng, 2, 4), d8(rng, 2, 4), rng.choice(zs) + rng.choice([Fr(0), Fr(1, 2), Fr(-1, 4), Fr(1)]))
@@ -507,6 +523,8 @@ ZCASES = {
     "ne": (Fr(5), Fr(3)),
     "flat": (Fr(0), Fr(0)),
     "a-flat": (Fr(0), Fr(5, 2)),
+    "neg": (Fr(-2), Fr(-2)),
+    "neg-ne": (Fr(-2), Fr(2)),
 }
 
 
@@ -563,9 +581,10 @@ def gen_cases(ctx, rng):
             for kb in kinds:
                 planar = [k in ("poly", "disc") for k in (ka, kb)]
                 if all(planar):
-                    zc = ["eq", "ne", "flat"] if rep == 0 else [rng.choice(["eq", "ne", "flat", "a-flat"])]
+                    zc = ["eq", "ne", "flat", rng.choice(["neg", "neg-ne", "a-flat"])] if rep == 0 \
+                        else [rng.choice(["eq", "ne", "flat", "a-flat", "neg", "neg-ne"])]
                 elif any(planar) or "comp" in (ka, kb):
-                    zc = ["eq", "flat"] if rep == 0 else [rng.choice(["eq", "flat"])]
+                    zc = ["eq", "flat", "neg"] if rep == 0 else [rng.choice(["eq", "flat", "neg"])]
                 else:
                     zc = ["eq"]
                 for z in zc:
@@ -767,6 +786,8 @@ def correspondence_and_oracle(ctx, cases, use_lean):
             memB = [py_mem3(Bs, v) for v in vs]
             conA = [bool(As.containsPoint(v)) for v in vs]
             conB = [bool(Bs.containsPoint(v)) for v in vs]
+            truA = [bool(As._trueContainsPoint(v)) for v in vs]
+            truB = [bool(Bs._trueContainsPoint(v)) for v in vs]
         except Exception as e:  # noqa
             ctx.hist("generator", "membership-raised:" + type(e).__name__)
             continue
@@ -775,7 +796,7 @@ def correspondence_and_oracle(ctx, cases, use_lean):
         ctx.hist("safe_probes", min(nsafe // 10 * 10, 150))
         # (C) point predicates of the operands
         if use_lean:
-            for nm, mem, con in (("A", memA, conA), ("B", memB, conB)):
+            for nm, mem, con, tru in (("A", memA, conA, truA), ("B", memB, conB, truB)):
                 o = lean[(ci, "mem" + nm)].split()
                 spec = c.A if nm == "A" else c.B
                 if o[0] != "ok":
@@ -783,13 +804,15 @@ def correspondence_and_oracle(ctx, cases, use_lean):
                 for j, ok in enumerate(safe):
                     if not ok:
                         continue
-                    lm, lc, lt = o[1][j] == "1", o[2][j] == "1", o[3][j] == "1"
-                    if lt != mem[j] or lc != con[j]:
+                    lm, lc, lt, ltc = o[1][j] == "1", o[2][j] == "1", o[3][j] == "1", o[4][j] == "1"
+                    curve = kind_of(spec) == "line" or (kind_of(spec) == "comp" and any(kind_of(x) == "line" for x in unlazy(spec)[1:3]))
+                    if lt != mem[j] or lc != con[j] or (ltc != tru[j] and not curve):
                         bad_corr += 1
                         if bad_corr <= 6:
                             ctx.broken("correspondence", "point predicates (model vs regions.py)",
                                        f"{kind_of(spec)} {' '.join(tokens(spec))[:200]} at {[fs(t) for t in c.probes[j]]}: "
-                                       f"model containsPoint={lc} true={lt}; code containsPoint={con[j]} true={mem[j]}")
+                                       f"model containsPoint={lc} sampler-membership={lt} _trueContainsPoint={ltc}; "
+                                       f"code containsPoint={con[j]} sampler-membership={mem[j]} _trueContainsPoint={tru[j]}")
                         break
                     if lm != lt and kind_of(spec) != "comp":
                         # the code's 3-coordinate membership differs from the specification
@@ -857,7 +880,8 @@ def correspondence_and_oracle(ctx, cases, use_lean):
                     # a point set intersects exactly when one of its points is a member (points are probes)
                     P, Q, Qs = (c.A, B2, c.B) if kind_of(c.A) == "pts" else (c.B, A2, c.A)
                     t = P[1] if P[0] == "lzy" else P
-                    if Qs[0] not in ("lzy", "inter", "union", "diff"):
+                    if Qs[0] != "lzy" and not (Qs[0] in ("inter", "union", "diff") and any(kind_of(x) == "line" for x in Qs[1:3])):
+                        # exact for every other kind (composites structurally); curves only up to rounding
                         qq = sample_if_lazy(Q)
                         truth = any(py_mem3(qq, vec(p)) for p in t[1])
                 ctx.hist("intersects_truth", {True: "common-point", False: "separated", None: "undecided"}[truth])
@@ -867,7 +891,7 @@ def correspondence_and_oracle(ctx, cases, use_lean):
                     if ctx.violation(key, f"{kind_of(c.A)}.intersects({kind_of(c.B)}) = {val} but "
                                      + (f"{[float(t) for t in w]} belongs to both" if w else "the regions share no point")
                                      + f" ({' '.join(tokens(c.A))[:100]} | {' '.join(tokens(c.B))[:100]})",
-                                     c.replay(kind="op", op=op, witness=witness[:1])):
+                                     c.replay(kind="op", op=op, witness=witness[:1], truth=truth)):
                         found = True
                 if use_lean and lo and (is_lazy(c.A) or is_lazy(c.B)):
                     # `intersects` of the polygonal / mesh classes is a distributionFunction: with lazy operands the call
@@ -1071,12 +1095,12 @@ def point_queries(ctx, cases, use_lean):
             ctx.case(("dist", spec_json(t), spec_json(c.probes[j])), nontrivial=not mem[j])
             ctx.hist("distance", f"{k}:{'member' if mem[j] else 'outside'}")
             plane_ok = k not in ("foot",)   # a footprint's distance is planar by definition
-            if mem[j] and d > 1e-6:
+            if mem[j] and abs(d) > 1e-6:
                 if ctx.violation(f"distance:{k}:nonzero-on-member", f"{k}.distanceTo({tuple(v)}) = {d} for a member",
                                  {"kind": "dist", "R": spec_json(t), "p": spec_json(c.probes[j])}):
                     found = True
                 break
-            if not mem[j] and d <= 1e-6 and plane_ok:
+            if not mem[j] and d <= 1e-6 and (plane_ok or d < -1e-6):
                 if ctx.violation(f"distance:{k}:zero-off-member", f"{k}.distanceTo({tuple(v)}) = {d} for a non-member "
                                  f"({' '.join(tokens(t))[:100]})",
                                  {"kind": "dist", "R": spec_json(t), "p": spec_json(c.probes[j])}):
@@ -1111,7 +1135,7 @@ def point_queries(ctx, cases, use_lean):
             for m in members:
                 if not all(lo[i] - 1e-9 <= m[i] <= hi[i] + 1e-9 for i in range(3)):
                     if ctx.violation(f"aabb:{k}:member-outside", f"{k}.AABB = {bb} does not contain the member {tuple(m)}",
-                                     {"kind": "aabb", "R": spec_json(t)}):
+                                     {"kind": "aabb", "R": spec_json(t), "member": [float(x) for x in m]}):
                         found = True
                     break
             if use_lean and lean_bb[t][0] == "ok":
@@ -1214,38 +1238,11 @@ def projection_checks(ctx, rng, use_lean):
         ctx.case(("proj", spec_json(b), spec_json(p), spec_json(d)), nontrivial=q is not None)
         ctx.hist("projection", "none" if q is None else ("inside" if tuple(q) == tuple(v) else "hit"))
         rep = {"kind": "proj", "box": spec_json(b), "p": spec_json(p), "d": spec_json(d)}
-        if q is not None:
-            dn = math.sqrt(sum(float(x) ** 2 for x in d))
-            du = [float(x) / dn for x in d]
-            w = [q[j] - v[j] for j in range(3)]
-            tpar = sum(w[j] * du[j] for j in range(3))
-            perp = math.sqrt(max(0.0, sum(x * x for x in w) - tpar * tpar))
-            if perp > 1e-6:
-                if ctx.violation("projectVector:off-line", f"projection {tuple(q)} of {tuple(v)} is not on the line along {d}", rep):
-                    found = True
-                continue
-            if float(Rg.distanceTo(q)) > 1e-5:
-                if ctx.violation("projectVector:not-member", f"projection {tuple(q)} is not in the region", rep):
-                    found = True
-                continue
-            # no member strictly closer along the line (scan)
-            closer = None
-            steps = 400
-            for s in range(1, steps):
-                for sg in (1, -1):
-                    tt = sg * abs(tpar) * s / steps
-                    if abs(tt) < abs(tpar) - 1e-3:
-                        cand = M["Vector"](*(v[j] + tt * du[j] for j in range(3)))
-                        if Rg.containsPoint(cand) and float(Rg.distanceTo(cand)) == 0.0:
-                            closer = (tt, cand)
-                            break
-                if closer:
-                    break
-            if closer:
-                if ctx.violation("projectVector:not-nearest", f"projection of {tuple(v)} along ±{[float(x) for x in d]} is {tuple(q)} "
-                                 f"(|t|={abs(tpar):.4f}) but {tuple(closer[1])} (|t|={abs(closer[0]):.4f}) is in the region", rep):
-                    found = True
-                continue
+        bad_proj = proj_verdict(Rg, v, d, q)
+        if bad_proj:
+            if ctx.violation(bad_proj[0], bad_proj[1], rep):
+                found = True
+            continue
         if lean is not None:
             lo = lean[i].split()
             if lo[0] == "none":
@@ -1261,6 +1258,32 @@ def projection_checks(ctx, rng, use_lean):
                     ctx.broken("correspondence", "projectVector (model vs regions.py)",
                                f"box {' '.join(tokens(b))[:120]} p={[fs(x) for x in p]} d={[fs(x) for x in d]}: code {q}, model {' '.join(lo)}")
     return found
+
+
+def proj_verdict(Rg, v, d, q):
+    """the property of one projection result: on the line, a member, nothing nearer (scan) -> (key, what) or None"""
+    M = real()
+    if q is None:
+        return None
+    dn = math.sqrt(sum(float(x) ** 2 for x in d))
+    du = [float(x) / dn for x in d]
+    w = [q[j] - v[j] for j in range(3)]
+    tpar = sum(w[j] * du[j] for j in range(3))
+    perp = math.sqrt(max(0.0, sum(x * x for x in w) - tpar * tpar))
+    if perp > 1e-6:
+        return ("projectVector:off-line", f"projection {tuple(q)} of {tuple(v)} is not on the line along {d}")
+    if float(Rg.distanceTo(q)) > 1e-5:
+        return ("projectVector:not-member", f"projection {tuple(q)} is not in the region")
+    steps = 400
+    for s_ in range(1, steps):
+        for sg in (1, -1):
+            tt = sg * abs(tpar) * s_ / steps
+            if abs(tt) < abs(tpar) - 1e-3:
+                cand = M["Vector"](*(v[j] + tt * du[j] for j in range(3)))
+                if Rg.containsPoint(cand) and float(Rg.distanceTo(cand)) == 0.0:
+                    return ("projectVector:not-nearest", f"projection of {tuple(v)} along ±{[float(x) for x in d]} is {tuple(q)} "
+                            f"(|t|={abs(tpar):.4f}) but {tuple(cand)} (|t|={abs(tt):.4f}) is in the region")
+    return None
 
 
 def workspace_checks(ctx):
@@ -1280,6 +1303,11 @@ def workspace_checks(ctx):
         ("intersect", lambda: ws.intersect(other).containsPoint(V(0.75, 0, 0)), lambda r: bool(r)),
         ("intersect-reversed", lambda: other.intersect(ws).containsPoint(V(0.75, 0, 0)), lambda r: bool(r)),
         ("AABB", lambda: ws.AABB, lambda r: tuple(r[0]) == (-1, -1, -1)),
+        ("difference", lambda: (lambda r: (bool(r.containsPoint(V(-0.75, 0, 0))), bool(r.containsPoint(V(0.75, 0, 0)))))(ws.difference(other)),
+         lambda r: r == (True, False)),
+        ("union", lambda: (lambda r: (bool(r.containsPoint(V(-0.75, 0, 0))), bool(r.containsPoint(V(1.75, 0, 0)))))(ws.union(other)),
+         lambda r: r == (True, True)),
+        ("size", lambda: ws.size, lambda r: abs(r - 8) < 1e-6),
     ]
     for name, f, ok in tests:
         ctx.case(("workspace", name))
@@ -1406,11 +1434,25 @@ def run(ctx):
 
 
 # =========================================================================== replay
+class _Rec:
+    """minimal ctx for re-running a fixed check during a replay"""
+    def __init__(self):
+        self.hits = []
+    def case(self, *a, **k): pass
+    def hist(self, *a, **k): pass
+    def violation(self, key, what, rep):
+        print(key, "-", what)
+        self.hits.append(key)
+        return True
+
+
 def replay(ctx, path):
+    """re-executes the recorded input on the real code; exit status 1 (and a REPRODUCED line) when it still fails"""
     body = json.load(open(path))
     rep = body.get("replay", body)
     kind = rep.get("kind")
     M = real()
+    failing = False
     if kind in ("op", "membership", "sample", "creg"):
         A, B = spec_unjson(rep["A"]), spec_unjson(rep["B"])
         print("A =", " ".join(tokens(A)))
@@ -1418,56 +1460,109 @@ def replay(ctx, path):
         probes = [tuple(p) for p in spec_unjson(rep["probes"])]
         if kind == "creg":
             ra, rb = build(A), build(B)
-            print("A.containsRegion(B) =", ra.containsRegion(rb))
-            if "probe" in rep:
-                v = vec(probes[rep["probe"]])
-                print("probe", tuple(v), "in A:", py_mem3(ra, v), "in B:", py_mem3(rb, v))
-            return 0
-        op = rep.get("op", "intersect")
-        ra, rb = build(A), build(B)
-        st, val = run_op(ra, rb, op)
-        print(f"A.{op}(B) ->", st, py_type(val) if st == "ok" else val, getattr(val, "z", ""))
-        js = [rep["probe"]] if "probe" in rep else rep.get("witness", [])
-        As, Bs = sample_if_lazy(build(A)), sample_if_lazy(build(B))
-        for j in js:
-            v = vec(probes[j])
-            print("probe", tuple(v), "in A:", py_mem3(As, v), "in B:", py_mem3(Bs, v),
-                  "in result:", py_mem3(val, v) if st == "ok" else "-")
-        if kind == "sample" and st == "ok":
             try:
-                p = val.uniformPointInner()
-                print("sample", tuple(p), "in A:", py_mem3(As, p), "in B:", py_mem3(Bs, p))
+                ans = bool(ra.containsRegion(rb))
+                print("A.containsRegion(B) =", ans)
+            except (NotImplementedError, TypeError, AssertionError) as e:
+                print("A.containsRegion(B) refused:", type(e).__name__)
+                ans = None
             except Exception as e:  # noqa
-                print("sampling raised", type(e).__name__, e)
+                print("A.containsRegion(B) raised", type(e).__name__, e)
+                failing = True
+                ans = None
+            if "probe" in rep and ans:
+                v = vec(probes[rep["probe"]])
+                ina, inb = py_mem3(ra, v), py_mem3(rb, v)
+                print("probe", tuple(v), "in A:", ina, "in B:", inb)
+                failing = inb and not ina
+        else:
+            op = rep.get("op", "intersect")
+            ra, rb = build(A), build(B)
+            st, val = run_op(ra, rb, op)
+            print(f"A.{op}(B) ->", st, py_type(val) if st == "ok" else val, getattr(val, "z", ""))
+            As, Bs = sample_if_lazy(build(A)), sample_if_lazy(build(B))
+            if st == "crash":
+                failing = True
+            elif kind == "membership":
+                j = rep["probe"]
+                v = vec(probes[j])
+                R_ = As if rep.get("which") == "A" else Bs
+                print("probe", tuple(v), "_trueContainsPoint:", py_mem3(R_, v))
+            elif kind == "sample" and st == "ok":
+                for _ in range(12):
+                    try:
+                        p = val.uniformPointInner()
+                    except Exception as e:  # noqa
+                        if type(e).__name__ == "RejectionException":
+                            continue
+                        print("sampling raised", type(e).__name__, e)
+                        failing = True
+                        break
+                    ina, inb = py_mem3(As, p), py_mem3(Bs, p)
+                    print("sample", tuple(p), "in A:", ina, "in B:", inb)
+                    if not (ina and inb):
+                        failing = True
+                        break
+            elif op == "intersects" and st == "bool":
+                truth = rep.get("truth")
+                for j in rep.get("witness", []):
+                    v = vec(probes[j])
+                    print("probe", tuple(v), "in A:", py_mem3(As, v), "in B:", py_mem3(Bs, v))
+                    truth = truth and py_mem3(As, v) and py_mem3(Bs, v)
+                print("intersects =", val, " ground truth:", truth)
+                failing = truth is not None and bool(val) != bool(truth)
+            elif st == "ok" and "probe" in rep:
+                v = vec(probes[rep["probe"]])
+                ina, inb, inr = py_mem3(As, v), py_mem3(Bs, v), py_mem3(val, v)
+                print("probe", tuple(v), "in A:", ina, "in B:", inb, "in result:", inr, "expected:", expected(op, ina, inb))
+                failing = inr != expected(op, ina, inb)
     elif kind in ("dist", "aabb", "size"):
-        Rg = build(spec_unjson(rep["R"]))
-        print("region:", " ".join(tokens(spec_unjson(rep["R"]))))
+        spec = spec_unjson(rep["R"])
+        Rg = build(spec)
+        print("region:", " ".join(tokens(spec)))
         if kind == "dist":
             v = vec(spec_unjson(rep["p"]))
-            print("distanceTo", tuple(v), "=", Rg.distanceTo(v), " member:", py_mem3(Rg, v))
+            d, m = float(Rg.distanceTo(v)), py_mem3(Rg, v)
+            print("distanceTo", tuple(v), "=", d, " member:", m)
+            failing = (m and d > 1e-6) or (not m and d <= 1e-6 and kind_of(spec) != "foot")
         elif kind == "aabb":
-            print("AABB =", Rg.AABB)
+            bb = Rg.AABB
+            print("AABB =", bb, " member:", rep.get("member"))
+            m = rep.get("member")
+            failing = m is not None and not all(float(bb[0][i]) - 1e-9 <= m[i] <= float(bb[1][i]) + 1e-9 for i in range(3))
         else:
-            print("size =", Rg.size, " exact:", exact_size(spec_unjson(rep["R"])))
+            es = exact_size(spec)
+            print("size =", Rg.size, " exact:", es)
+            rel = 2e-3 if kind_of(spec) in ("disc", "foot") else 1e-6
+            failing = abs(float(Rg.size) - es) > rel * max(1.0, es)
     elif kind == "proj":
         b = spec_unjson(rep["box"])
         p, d = spec_unjson(rep["p"]), spec_unjson(rep["d"])
-        print("projectVector ->", build(b).projectVector(vec(p), tuple(float(x) for x in d)))
+        Rg = build(b)
+        try:
+            q = Rg.projectVector(vec(p), tuple(float(x) for x in d))
+            print("projectVector ->", q)
+            bad = proj_verdict(Rg, vec(p), d, q)
+            if bad:
+                print(bad[0], "-", bad[1])
+                failing = True
+            elif rep.get("model") is not None:
+                want = rep["model"]
+                ok = (q is None) if want == "none" else (q is not None and max(abs(float(Fr(want[j])) - q[j]) for j in range(3)) < 1e-5)
+                print("exact slab computation:", want)
+                failing = not ok
+        except Exception as e:  # noqa
+            print("projectVector raised", type(e).__name__, e)
+            failing = True
     elif kind == "workspace":
-        class C:  # minimal ctx
-            def case(self, *a, **k): pass
-            def hist(self, *a, **k): pass
-            def violation(self, key, what, rep):
-                print(key, "-", what)
-                return True
-        workspace_checks(C())
+        r = _Rec()
+        workspace_checks(r)
+        failing = f"workspace:{rep.get('name')}" in r.hits
     elif kind == "regression":
-        class C:
-            def case(self, *a, **k): pass
-            def violation(self, key, what, rep):
-                print(key, "-", what)
-                return True
-        regression_checks(C())
+        r = _Rec()
+        regression_checks(r)
+        failing = f"regression:{rep.get('name')}" in r.hits
     else:
         print(json.dumps(rep, indent=1)[:3000])
-    return 0
+    print("REPRODUCED: the recorded input still fails on this tree" if failing else "not reproduced on this tree (passes)")
+    return 1 if failing else 0
